@@ -52,6 +52,11 @@ impl From<DecyclerError> for PaintError {
 /// hb_paint_context_t: <https://github.com/harfbuzz/harfbuzz/blob/c2f8f35a6cfce43b88552b3eb5c05062ac7007b2/src/OT/Color/COLR/COLR.hh#L74>
 const MAX_TRAVERSAL_DEPTH: usize = 64;
 
+/// Total number of paint nodes a single paint call may visit. A paint graph
+/// is a DAG: shared sub graphs (and the two passes of the fill-glyph
+/// optimisation) make the work exponential in the table size otherwise.
+pub(crate) const MAX_TRAVERSAL_VISITS: u32 = 1 << 16;
+
 pub(crate) fn get_clipbox_font_units(
     colr_instance: &ColrInstance,
     glyph_id: GlyphId,
@@ -190,6 +195,7 @@ pub(crate) fn traverse_with_callbacks(
     if recurse_depth >= MAX_TRAVERSAL_DEPTH {
         return Err(PaintError::DepthLimitExceeded);
     }
+    decycler.visit()?;
     match paint {
         ResolvedPaint::ColrLayers { range } => {
             for layer_index in range.clone() {
